@@ -169,6 +169,8 @@ def hide(n, res):
     """all literal words below n are hidden text"""
     t = n.get('t')
     for k, v in n.items():
+        if k == 'm':
+            continue       # the definition a call refers to is not part of the hidden region
         if k in ('w', 'key', 'hidden', 'short', 'title') and isinstance(v, str) and v.startswith('Q'):
             res.hidden.add(v)
         elif k == 'label' and isinstance(v, str) and v.startswith('Q'):
